@@ -18,7 +18,10 @@ def dbl_bits(x):
 DBL_POOL = [dbl_bits(x) for x in [0.0, -0.0, 1.0, -1.0, 1.5, -2.5, 0.1, 1e10, 1e15 + 0.5, 123456789.125, 2.0**31, 2.0**31 - 1, -2.0**31, -2.0**31 - 1,
                                    2.0**63, -2.0**63, 2.0**53 + 2, 1e300, -1e300, 1.7976931348623157e308, 5e-324, 2.2250738585072014e-308,
                                    1e-5, 1e-4, 999999.5, 16777217.0, 3.999999999, -3.999999999, 0.5, 2147483647.9, -2147483648.9, 1e60, 2e60, -2e59, 1e22, 1e23,
-                                   1.5e10, -2.5e-20, 1.25e100, 3.75e300, 1.5e-10, 6.02e20, 1.1e30, 9.99e-100, 1.5e-200, 1e10, 1e100]]
+                                   1.5e10, -2.5e-20, 1.25e100, 3.75e300, 1.5e-10, 6.02e20, 1.1e30, 9.99e-100, 1.5e-200, 1e10, 1e100,
+                                   # values whose SHORT %g rendering rounds up past DBL_MAX (2e+308, 1.8e+308, 1.80e+308 ...) although
+                                   # they are not DBL_MAX itself, and their neighbours that just do not
+                                   1.5e308, 1.7e308, -1.7e308, 1.75e308, 1.795e308, 1.7976e308, 1.79769e308, 1.4e308, 9.99e307]]
 
 class Shape:
     """shadow of one setting: type, name, children (from the harness's dump)"""
